@@ -109,12 +109,31 @@ nng_init(const nng_init_params *params)
 
 	init_count++;
 
-	if (
-		((rv = nni_alloc_set(init_params.malloc_fn, init_params.calloc_fn, init_params.free_fn)) != 0) ||
-		((rv = nni_plat_init(&init_params)) != 0) ||
-	    ((rv = nni_taskq_sys_init(&init_params)) != 0) ||
-	    ((rv = nni_reap_sys_init()) != 0) ||
-	    ((rv = nni_aio_sys_init(&init_params)) != 0) ||
+	// If something cannot be started, stop what was started before it
+	// (each subsystem cleans up after its own failed start).  nng_fini
+	// is only usable once task queue and reaper exist.
+	if (((rv = nni_alloc_set(init_params.malloc_fn, init_params.calloc_fn,
+	          init_params.free_fn)) != 0) ||
+	    ((rv = nni_plat_init(&init_params)) != 0)) {
+		init_count--;
+		nni_atomic_flag_reset(&init_busy);
+		return (rv);
+	}
+	if ((rv = nni_taskq_sys_init(&init_params)) != 0) {
+		nni_plat_fini();
+		init_count--;
+		nni_atomic_flag_reset(&init_busy);
+		return (rv);
+	}
+	if ((rv = nni_reap_sys_init()) != 0) {
+		nni_reap_sys_fini();
+		nni_taskq_sys_fini();
+		nni_plat_fini();
+		init_count--;
+		nni_atomic_flag_reset(&init_busy);
+		return (rv);
+	}
+	if (((rv = nni_aio_sys_init(&init_params)) != 0) ||
 	    ((rv = nni_tls_sys_init()) != 0)) {
 		nni_atomic_flag_reset(&init_busy);
 		nng_fini();
